@@ -169,6 +169,9 @@ pub enum Op {
     Matching([MSpec; 3], GSpec),
     Contains(MQuad),
     Terms,
+    /// replace the store by one collected from a source (`from_quad_source` /
+    /// `from_triple_source`), which may fail at a position
+    Collect(Vec<MQuad>, Option<usize>),
     // ---- C11: views
     ViewTriples(Option<MTerm>),
     ViewMatching(Option<MTerm>, [MSpec; 3]),
@@ -197,6 +200,7 @@ impl Op {
             Op::Matching(..) => "quads_matching",
             Op::Contains(_) => "contains",
             Op::Terms => "term_enumerations",
+            Op::Collect(..) => "collect_from_source",
             Op::ViewTriples(_) => "view_triples",
             Op::ViewMatching(..) => "view_triples_matching",
             Op::ViewContains(..) => "view_contains",
@@ -524,6 +528,7 @@ where
             ensure!(got == want, o("contains"), "{name}: contains({}) = {got}, reference says {want}", fmt_quad(q));
         }
         Op::Terms => panic!("ORACLE: term enumerations go through step_ds_terms"),
+        Op::Collect(..) => panic!("ORACLE: collect goes through step_ds_collect"),
         Op::ViewTriples(_) | Op::ViewMatching(..) | Op::ViewContains(..) | Op::ViewInsert(..) | Op::ViewRemove(..) | Op::ViewRemoveMatching(..) | Op::ViewRetainMatching(..) | Op::ViewInsertAll(..) | Op::ViewRemoveAll(..) => {
             panic!("ORACLE: single-graph view operations go through step_ds_view");
         }
@@ -581,6 +586,137 @@ where
     check_content(name, d, m, op.name())
 }
 
+
+/// `CollectibleDataset::from_quad_source`: on success the store is replaced by the collected
+/// one, on failure (source error, or term index full: a sink error) it is left alone.
+fn step_ds_collect<D>(ctx: &mut Ctx, name: &str, d: &mut D, m: &mut Model, op: &Op) -> Verdict
+where
+    D: sophia_api::dataset::CollectibleDataset,
+{
+    let o = |n: &str| format!("{n}/{name}");
+    let Op::Collect(qs, fail_at) = op else { return Ok(()) };
+    let mut m2 = Model::new(m.set, m.index.as_ref().map(|i| i.0));
+    let mut want_err: Option<&'static str> = None;
+    for (i, q) in qs.iter().enumerate() {
+        if *fail_at == Some(i) {
+            want_err = Some("source");
+            break;
+        }
+        if m2.insert(q).is_err() {
+            want_err = Some("sink");
+            break;
+        }
+    }
+    if want_err.is_none() && *fail_at == Some(qs.len()) {
+        want_err = Some("source");
+    }
+    match (D::from_quad_source(faulty(qs, *fail_at)), want_err) {
+        (Ok(d2), None) => {
+            *d = d2;
+            *m = m2;
+        }
+        (Err(StreamError::SourceError(e)), Some("source")) => {
+            ensure!(e.id == 9001, o("error_identity"), "{name}: wrong source error {e:?}");
+            ctx.fault("source_error_in_collect");
+            ctx.fault_in_op = true;
+        }
+        (Err(StreamError::SinkError(e)), Some("sink")) => {
+            ensure!(is_index_full(&e), o("error_identity"), "{name}: expected TermIndexFullError, got {e}");
+            ctx.fault("term_index_full_in_collect");
+            ctx.fault_in_op = true;
+        }
+        (other, want) => {
+            return Err(Violation::new(
+                o("collect_outcome"),
+                format!(
+                    "{name}: from_quad_source over {} quads (source fails at {fail_at:?}) returned {}, the reference expects {want:?}",
+                    qs.len(),
+                    match &other {
+                        Ok(d2) => format!("Ok(dataset of {} quads)", d2.quads().count()),
+                        Err(StreamError::SourceError(_)) => "SourceError".into(),
+                        Err(StreamError::SinkError(e)) => format!("SinkError({e})"),
+                    }
+                ),
+            ));
+        }
+    }
+    check_content(name, d, m, op.name())
+}
+
+fn step_graph_collect<G>(ctx: &mut Ctx, name: &str, g: &mut G, m: &mut Model, op: &Op) -> Verdict
+where
+    G: sophia_api::graph::CollectibleGraph,
+{
+    let o = |n: &str| format!("{n}/{name}");
+    let Op::Collect(qs, fail_at) = op else { return Ok(()) };
+    let qs: Vec<MQuad> = qs.iter().map(|q| (q.0.clone(), None)).collect();
+    let mut m2 = Model::new(m.set, m.index.as_ref().map(|i| i.0));
+    let mut want_err: Option<&'static str> = None;
+    for (i, q) in qs.iter().enumerate() {
+        if *fail_at == Some(i) {
+            want_err = Some("source");
+            break;
+        }
+        if m2.insert(q).is_err() {
+            want_err = Some("sink");
+            break;
+        }
+    }
+    if want_err.is_none() && *fail_at == Some(qs.len()) {
+        want_err = Some("source");
+    }
+    use sophia_api::source::QuadSource;
+    match (G::from_triple_source(faulty(&qs, *fail_at).to_triples()), want_err) {
+        (Ok(g2), None) => {
+            *g = g2;
+            *m = m2;
+        }
+        (Err(StreamError::SourceError(e)), Some("source")) => {
+            ensure!(e.id == 9001, o("error_identity"), "{name}: wrong source error {e:?}");
+            ctx.fault("source_error_in_collect");
+            ctx.fault_in_op = true;
+        }
+        (Err(StreamError::SinkError(e)), Some("sink")) => {
+            ensure!(is_index_full(&e), o("error_identity"), "{name}: expected TermIndexFullError, got {e}");
+            ctx.fault("term_index_full_in_collect");
+            ctx.fault_in_op = true;
+        }
+        (other, want) => {
+            return Err(Violation::new(
+                o("collect_outcome"),
+                format!(
+                    "{name}: from_triple_source over {} triples (source fails at {fail_at:?}) returned {}, the reference expects {want:?}",
+                    qs.len(),
+                    match &other {
+                        Ok(g2) => format!("Ok(graph of {} triples)", g2.triples().count()),
+                        Err(StreamError::SourceError(_)) => "SourceError".into(),
+                        Err(StreamError::SinkError(e)) => format!("SinkError({e})"),
+                    }
+                ),
+            ));
+        }
+    }
+    let got = {
+        let mut v = gcontent(g);
+        v.sort();
+        v
+    };
+    let want: Vec<MTriple> = {
+        let mut v: Vec<MTriple> = m.quads.iter().map(|q| q.0.clone()).collect();
+        v.sort();
+        v
+    };
+    ensure!(
+        got == want,
+        format!("content_mismatch/{name}"),
+        "{name} after {}: graph holds {} triples, the reference {} holds {}",
+        op.name(),
+        got.len(),
+        if m.set { "set" } else { "list" },
+        want.len()
+    );
+    Ok(())
+}
 
 /// Term enumerations (`quoted_triples` needs the term type to be Clone for every lifetime,
 /// which only owned store types can promise).
@@ -1139,6 +1275,7 @@ where
             }
         }
         Op::Terms | Op::UnionMatching(_) => {}
+        Op::Collect(..) => panic!("ORACLE: collect goes through step_graph_collect"),
     }
     let got = {
         let mut v = gcontent(g);
@@ -1228,6 +1365,8 @@ fn step_all_ds(ctx: &mut Ctx, s: &mut DsStores, models: &mut [Model], op: &Op, p
                 step_ds_view(ctx, labels[$i], &mut s.$f, &mut models[$i], op)?;
             } else if matches!(op, Op::Terms) {
                 step_ds_terms(labels[$i], &s.$f, &models[$i], op)?;
+            } else if matches!(op, Op::Collect(..)) {
+                step_ds_collect(ctx, labels[$i], &mut s.$f, &mut models[$i], op)?;
             } else if via_ref {
                 // the `&mut T` forwarding implementation
                 let mut r = &mut s.$f;
@@ -1258,7 +1397,9 @@ fn step_all_g(ctx: &mut Ctx, s: &mut GStores, models: &mut [Model], op: &Op, poo
     let labels = GStores::labels();
     macro_rules! go {
         ($i:expr, $f:ident) => {
-            if via_ref {
+            if matches!(op, Op::Collect(..)) {
+                step_graph_collect(ctx, labels[$i], &mut s.$f, &mut models[$i], op)?;
+            } else if via_ref {
                 let mut r = &mut s.$f;
                 step_graph(ctx, labels[$i], &mut r, &mut models[$i], op, pool, views)?;
             } else {
@@ -1373,7 +1514,11 @@ fn draw_op(ctx: &mut Ctx, a: &Alphabet, p: &Profile, pool: &TermPool, views: boo
             let n = ctx.tape.below(6);
             let qs: Vec<MQuad> = (0..n).map(|_| draw_quad(ctx, a, p, pool)).collect();
             let fail = if ctx.tape.chance(1, 3) { Some(ctx.tape.below(n + 1)) } else { None };
-            Op::InsertAll(qs, fail)
+            if ctx.tape.chance(1, 4) {
+                Op::Collect(qs, fail)
+            } else {
+                Op::InsertAll(qs, fail)
+            }
         }
         7 => {
             let n = ctx.tape.below(6);
